@@ -36,8 +36,19 @@ func fileExists(name string) (bool, error) {
 	return true, nil
 }
 
-func createSegment(name string, opt Options) (err error) {
-	f, err := os.OpenFile(name, os.O_RDWR|os.O_CREATE, opt.FileMode)
+// createSegment prepares the segment in a temp file and renames it,
+// so that a crash never leaves a partially initialized segment file,
+// which makes subsequent Open to fail.
+func createSegment(name string, opt Options) error {
+	temp := name + ".tmp"
+	if err := writeSegment(temp, opt); err != nil {
+		return err
+	}
+	return os.Rename(temp, name)
+}
+
+func writeSegment(name string, opt Options) (err error) {
+	f, err := os.OpenFile(name, os.O_RDWR|os.O_CREATE|os.O_TRUNC, opt.FileMode)
 	if err != nil {
 		return
 	}
